@@ -34,7 +34,7 @@ contract(T + '_strip_symbol', params={'self': 'Transformer', 'symbol': 'SourceSy
          ensures={
              'C04.strip_symbol.only_own_namespace': "self.split_csymbol(bare)[0] is self._namespace",
              'C04.strip_symbol.name_is_prefix_stripped': "result == ('_' if symbol.ident.startswith('_') else '') + self.split_csymbol(bare)[1]",
-             'C04.strip_symbol.c_identifier_ends_with_name': "symbol.ident.endswith(self.split_csymbol(bare)[1])",
+             'C04.strip_symbol.name_is_what_follows_the_prefix': "bare.endswith(self.split_csymbol(bare)[1]) and symbol.ident.endswith(bare)",
          })
 
 contract(T + '_create_function', params={'self': 'Transformer', 'symbol': 'SourceSymbol'}, returns='Function?', props=('C04',),
@@ -285,3 +285,148 @@ contract(MT + '_split_uscored_by_type', params={'self': 'MainTransformer', 'usco
                  "len(Q) > len(head_of(uscored, result[1])), not self._uscore_type_names.get(Q))",
          },
          note='candidates are the prefixes of `uscored` that end in front of an underscore (and `uscored` itself), longest first')
+
+
+# ---- static functions and constructors of types -----------------------------------------------------------------------
+contract(NS + 'float', params={'self': 'Namespace', 'node': 'Function'}, props=('C04',),
+         modifies=['node.namespace', 'self.names{}', 'self.aliases{}', 'self.type_names{}', 'self.symbols{}', 'self.ctypes{}'],
+         raises={'KeyError': 'True'},
+         ensures={
+             'C04.namespace.floated_function_leaves_the_toplevel': 'self.names.get(node.name) is None',
+             'C04.namespace.floated_function_stays_findable_by_symbol': 'self.symbols.get(node.symbol) is node',
+             'C04.namespace.floated_function_keeps_its_owner': 'node.namespace is self',
+         })
+contract('giscanner.ast.Function.clone', params={'self': 'Function'}, returns='Function', fresh_result=True, trusted=True,
+         modifies=['*.parent'],
+         ensures={'same_symbol': 'result.symbol == self.symbol and result.name == self.name and result.moved_to == self.moved_to '
+                                 'and result.is_method == self.is_method and result.is_constructor == self.is_constructor',
+                  'a_copy': 'result is not self'},
+         note='copy.copy of the function with its own parameter list (parameters re-parented)')
+_REG2 = __import__('givc.contracts', fromlist=['REGISTRY']).REGISTRY
+_REG2.get(MT + '_split_uscored_by_type').pure_keys = ['self', 'uscored']
+
+SPLIT = 'self._split_uscored_by_type(subsymbol)'
+contract(MT + '_pair_static_method', params={'self': 'MainTransformer', 'func': 'Function', 'subsymbol': 'str'}, returns='bool',
+         props=('C04',),
+         let={'split': SPLIT},
+         modifies=['func.name', 'func.moved_to', 'func.namespace', 'split[0].static_methods[]', '*.parent',
+                   'self._namespace.names{}', 'self._namespace.aliases{}', 'self._namespace.type_names{}',
+                   'self._namespace.symbols{}', 'self._namespace.ctypes{}'],
+         raises={'KeyError': 'True'},
+         ensures={
+             'C04.static.only_with_a_type_prefix_and_a_rest':
+                 "implies(result, split is not None and split[1] != '')",
+             'C04.static.no_pairing_leaves_the_function_alone':
+                 "implies(not result, func.name == old(func.name) and func.moved_to == old(func.moved_to) and "
+                 "func.namespace is old(func.namespace))",
+             'C04.static.class_function_moves_into_the_class':
+                 "implies(result and isinstance(split[0], ast.Class), func.name == split[1] and "
+                 "split[0].static_methods[-1] is func and len(split[0].static_methods) == old(len(split[0].static_methods)) + 1 "
+                 "and func.moved_to == old(func.moved_to))",
+             'C04.static.other_types_get_a_copy_and_the_original_points_to_it':
+                 "implies(result and not isinstance(split[0], ast.Class), "
+                 "isinstance(split[0], (ast.Interface, ast.Record, ast.Union, ast.Boxed, ast.Enum, ast.Bitfield)) and "
+                 "split[0].static_methods[-1] is not func and split[0].static_methods[-1].name == split[1] and "
+                 "split[0].static_methods[-1].symbol == func.symbol and "
+                 "func.moved_to == split[0].name + '.' + split[1] and func.name == old(func.name))",
+         })
+
+
+def looks_like_a_constructor(symbol):
+    return symbol.endswith('_new') or '_new_' in symbol or symbol.endswith('_newv')
+
+
+contract(MT + '_guess_constructor_by_name', params={'self': 'MainTransformer', 'symbol': 'str'}, returns='bool', props=('C04',),
+         pure_keys=['symbol'],
+         ensures={'C04.constructor.name_convention': 'result == looks_like_a_constructor(symbol)'})
+
+
+# executed inline in _is_constructor only (other checks keep their own contracts for these)
+NODE_INLINE = ('giscanner.ast.Node._compare', 'giscanner.ast.Node.__eq__', 'giscanner.ast.Node.__ne__',
+               'giscanner.ast.Node.create_type', 'giscanner.ast.Type.__str__')
+
+
+def same_node(a, b):
+    """nodes compare equal when they have the same name in the same namespace"""
+    return a.namespace is b.namespace and a.name == b.name
+
+
+def constructible(n):
+    """classes, and registered (or foreign) records / unions / boxed types, can have constructors"""
+    return isinstance(n, ast.Class) or (isinstance(n, (ast.Record, ast.Union, ast.Boxed)) and
+                                        (n.get_type is not None or n.foreign))
+
+
+def constructed_type(self, func, subsymbol):
+    """the type a constructor belongs to: the one whose prefix its symbol carries (longest registered prefix), else -
+    for an annotated constructor - the type it returns"""
+    split = self._split_uscored_by_type(subsymbol)
+    if split is None:
+        if func.is_constructor:
+            return self._transformer.lookup_typenode(func.retval.type)
+        return None
+    return split[0]
+
+
+contract(MT + '_get_constructor_class', params={'self': 'MainTransformer', 'func': 'Function', 'subsymbol': 'str'},
+         returns='Node?', props=('C04',), pure_keys=['self', 'func', 'subsymbol'], raises={'KeyError': 'True'},
+         ensures={'C04.constructor.class_is_the_prefix_type': 'result is constructed_type(self, func, subsymbol)'})
+
+contract(MT + '_is_constructor', params={'self': 'MainTransformer', 'func': 'Function', 'subsymbol': 'str'}, returns='bool',
+         props=('C04',), modifies=['LOGGER._warning_count'], raises={'KeyError': 'True'}, inline=NODE_INLINE,
+         requires=['func.retval is not None', 'func.retval.type is not None'],
+         let={'target': 'self._transformer.lookup_typenode(func.retval.type)', 'origin': 'constructed_type(self, func, subsymbol)'},
+         loops={1: {'invariant': ['LOGGER._warning_count >= old(LOGGER._warning_count)',
+                                  'parent is None or parent.namespace is not None'], 'modifies': [],
+                    'var_types': {'parent': 'Node?'}}},
+         ensures={
+             'C04.constructor.named_or_annotated': 'implies(result, func.is_constructor or looks_like_a_constructor(func.symbol))',
+             'C04.constructor.returns_a_constructible_type': 'implies(result, constructible(target))',
+             'C04.constructor.of_the_type_whose_prefix_it_carries':
+                 'implies(result, origin is not None and constructible(origin) and origin.namespace is self._namespace)',
+             'C04.constructor.boxed_constructor_returns_exactly_its_type':
+                 'implies(result and not isinstance(target, ast.Class), same_node(origin, target))',
+             'C04.constructor.not_when_it_takes_its_own_type_first':
+                 'implies(result and not func.is_constructor and len(func.parameters) > 0 and '
+                 'self._transformer.lookup_typenode(func.parameters[0].type) is not None, '
+                 'self._transformer.lookup_typenode(func.parameters[0].type).gi_name != origin.gi_name)',
+             'C04.constructor.count_only_grows': 'LOGGER._warning_count >= old(LOGGER._warning_count)',
+         },
+         note='for classes the walk up the parent chain (returned class must be the constructed class or an ancestor) is a '
+              'while loop over lookups; its result is not characterised here (invariant: only diagnostics are produced)')
+
+
+# ---- the dispatcher: each toplevel function is tried as constructor, then method, then static function of a type -------------
+PAIR_MODS = ['*.name', '*.moved_to', '*.namespace', '*.is_method', '*.is_constructor', '*.instance_parameter', '*._instance_parameter',
+             '*.parent', '*.transfer', 'LOGGER._warning_count']
+contract('giscanner.ast.Function.is_type_meta_function', params={'self': 'Function'}, returns='bool', trusted=True,
+         modifies=['LOGGER._warning_count'], note='*_get_type functions without parameters returning GType')
+for _n in ('_set_up_constructor', '_setup_method'):
+    contract(MT + _n, params={'self': 'MainTransformer', 'func': 'Function', 'subsymbol': 'str'}, trusted=True,
+             modifies=PAIR_MODS + ['*[]', '*{}'], raises={'KeyError': 'maybe', 'IndexError': 'maybe', 'AttributeError': 'maybe'},
+             note='moves the function into its type (renaming it after the prefix); lists of methods / constructors change')
+
+SUB = 'self._transformer.split_csymbol(func.symbol)[1]'
+ROLE_ARGS = "'arg_func is func and arg_subsymbol == old(%s)'" % SUB
+contract(MT + '_pair_function', params={'self': 'MainTransformer', 'func': 'Function'}, props=('C04',),
+         requires=['not self._transformer._symbol_filter_cmd', 'func.retval is not None', 'func.retval.type is not None'],
+         modifies=PAIR_MODS + ['*[]', '*{}'],
+         raises={'KeyError': 'True', 'ValueError': 'True', 'AssertionError': 'True', 'IndexError': 'True', 'AttributeError': 'True'},
+         ensures={
+             'C04.pair.internal_symbols_are_left_alone':
+                 "implies(func.symbol.startswith('_'), all_calls('_is_constructor', 'False') and all_calls('_is_method', 'False') "
+                 "and all_calls('_pair_static_method', 'False') and all_calls('_set_up_constructor', 'False') and "
+                 "all_calls('_setup_method', 'False'))",
+             'C04.pair.every_role_is_judged_on_the_prefix_stripped_symbol':
+                 "all_calls('_is_constructor', %s) and all_calls('_is_method', %s) and all_calls('_pair_static_method', %s) and "
+                 "all_calls('_set_up_constructor', %s) and all_calls('_setup_method', %s)" % ((ROLE_ARGS,) * 5),
+             'C04.pair.constructor_before_method_before_static':
+                 "calls_ordered('_is_constructor', '_is_method') and calls_ordered('_is_method', '_pair_static_method') and "
+                 "calls_ordered('_is_constructor', '_set_up_constructor') and calls_ordered('_is_method', '_setup_method')",
+             'C04.pair.set_up_only_after_the_test':
+                 "each_call_preceded('_set_up_constructor', '_is_constructor') and each_call_preceded('_setup_method', '_is_method')",
+             'C04.pair.at_most_one_role':
+                 "calls_ordered('_is_method', '_set_up_constructor') and calls_ordered('_pair_static_method', '_setup_method') and "
+                 "calls_ordered('_pair_static_method', '_set_up_constructor') and calls_ordered('_setup_method', '_set_up_constructor')",
+         },
+         note='calls_ordered(a, b): no call of a after a call of b; so once a function has been set up in one role no further role is tried')
